@@ -21,7 +21,7 @@ type Write struct {
 	Ok  bool `json:"ok"`
 }
 
-// Event kinds: read ack txbegin txfail commit pack sendfail srcerr tdbegin tdcancel tdend
+// Event kinds: read ack txbegin txfail commit pack sendfail sendheld srcerr tdbegin tdcancel tdend
 // (+ "note": harness remark, not rendered for the model unless it is a hang)
 type Event struct {
 	K    string   `json:"k"`
@@ -119,6 +119,8 @@ func CoqEvent(e Event) (string, bool) {
 		return fmt.Sprintf("EPAck %d %d %s", e.S, e.N, hx.Nats(e.Ks)), true
 	case "sendfail":
 		return fmt.Sprintf("ESendFail %d %d", e.S, e.N), true
+	case "sendheld":
+		return fmt.Sprintf("ESendHeld %d %d", e.S, e.N), true
 	case "srcerr":
 		return fmt.Sprintf("ESrcErr %d", e.S), true
 	case "tdbegin":
